@@ -83,6 +83,39 @@ pub const VALID_EXPRS: &[&str] = &[
     // 61: ordinals and number words (powers and root indexes above three, fractions spoken with ordinals, a large exponent)
     "<math><msup><mi>x</mi><mn>4</mn></msup><mo>+</mo><mroot><mi>y</mi><mn>5</mn></mroot><mo>+</mo><mfrac><mn>3</mn><mn>7</mn></mfrac></math>",
     "<math><msup><mi>a</mi><mn>23</mn></msup><mo>&#x2212;</mo><mroot><mn>2</mn><mn>12</mn></mroot><mo>+</mo><mfrac><mn>1</mn><mn>100</mn></mfrac><mo>+</mo><msup><mi>z</mi><mn>101</mn></msup></math>",
+    // 63: numbers with more digits than a machine integer holds, in the places where number words are made
+    "<math><mfrac><mn>1</mn><mn>100000000000000000000000</mn></mfrac><mo>+</mo><msup><mi>x</mi><mn>340282366920938463463374607431768211456</mn></msup><mo>+</mo><mroot><mi>y</mi><mn>99999999999999999999999999</mn></mroot><mo>+</mo><mn>0.00000000000000000000000000000000000001</mn></math>",
+];
+
+/// documented values of the ClearSpeak preferences (comments of Rules/prefs.yaml); "Auto" is the default of all but one
+pub const CLEARSPEAK_VALUES: &[(&str, &[&str])] = &[
+    ("ClearSpeak_CapitalLetters", &["SayCaps"]),
+    ("ClearSpeak_AbsoluteValue", &["AbsEnd", "Cardinality", "Determinant"]),
+    ("ClearSpeak_Fractions", &["Ordinal", "Over", "FracOver", "General", "EndFrac", "GeneralEndFrac", "OverEndFrac", "Per"]),
+    ("ClearSpeak_Exponents", &["Ordinal", "OrdinalPower", "AfterPower"]),
+    ("ClearSpeak_Roots", &["PosNegSqRoot", "RootEnd", "PosNegSqRootEnd"]),
+    ("ClearSpeak_Functions", &["None"]),
+    ("ClearSpeak_Trig", &["TrigInverse", "ArcTrig"]),
+    ("ClearSpeak_Log", &["LnAsNaturalLog"]),
+    ("ClearSpeak_ImpliedTimes", &["MoreImpliedTimes", "None"]),
+    ("ClearSpeak_Paren", &["Speak", "SpeakNestingLevel", "Silent", "CoordPoint", "Interval"]),
+    ("ClearSpeak_Matrix", &["SpeakColNum", "SilentColNum", "EndMatrix", "Vector", "EndVector", "Combinatorics"]),
+    ("ClearSpeak_MultiLineLabel", &["Case", "Constraint", "Equation", "Line", "None", "Row", "Step"]),
+    ("ClearSpeak_MultiLineOverview", &["None"]),
+    ("ClearSpeak_MultiLinePausesBetweenColumns", &["Long"]),
+    ("ClearSpeak_Sets", &["woAll", "SilentBracket"]),
+    ("ClearSpeak_MultSymbolX", &["By", "Cross"]),
+    ("ClearSpeak_MultSymbolDot", &["Dot"]),
+    ("ClearSpeak_TriangleSymbol", &["Delta"]),
+    ("ClearSpeak_Ellipses", &["AndSoOn"]),
+    ("ClearSpeak_VerticalLine", &["SuchThat", "Divides", "Given"]),
+    ("ClearSpeak_SetMemberSymbol", &["Belongs", "Element", "Member"]),
+    ("ClearSpeak_Prime", &["Angle", "Length"]),
+    ("ClearSpeak_CombinationPermutation", &["ChoosePermute"]),
+    ("ClearSpeak_Bar", &["Bar", "Conjugate", "Mean"]),
+    ("MathSpeak", &["Brief", "SuperBrief"]),
+    ("Chemistry", &["Off", "AsCompound"]),
+    ("Impairment", &["LearningDisability", "LowVision"]),
 ];
 
 /// Index of an expression with a character that only the *full* Unicode tables contain
